@@ -60,7 +60,8 @@ PLANS = {
                 mc=[dict(model="MC_Inverse", quick="MC_Inverse_shipped.cfg", only="thorough", expect_violation="ResultOK")],
                 mcgen=[dict(model="MC_Roots", quick="MC_Roots_quick.cfg", thorough="MC_Roots_thorough.cfg"),
                        dict(model="MC_Inverse", quick="MC_Inverse_quick.cfg", thorough="MC_Inverse_thorough.cfg")]),
-    "C13": dict(drive=True, mc=[dict(model="MC_Exp", quick="MC_Exp.cfg", workers=6)]),
+    "C13": dict(drive=True, mc=[dict(model="MC_Exp", quick="MC_Exp.cfg", workers=6)],
+                mcgen=[dict(model="MC_ExpMech", quick="MC_ExpMech_t100q.cfg", thorough="MC_ExpMech_t100.cfg", timeout=3600)]),
     "C14": dict(drive=True, shard=700, mc=[dict(model="MC_Floats", quick="MC_Floats.cfg")],
                 bounds=dict(quick=dict(model_checked="all 65536 binary16 patterns (decoder generic in the field widths)", not_reached="the exhaustive sweep of all 2^32 binary32 patterns: stratified sample (every exponent field x boundary / few-bit / random mantissas x both signs)"),
                             thorough=dict(model_checked="all 65536 binary16 patterns", not_reached="the exhaustive 2^32 binary32 sweep (about 4*10^9 events at 30 events/s/JVM)"))),
